@@ -25,6 +25,8 @@ GROUPS = {
     "misc": {"component_node_subclasses_by_name", "_djc_is_component_nested", "_metadata_stack"},
     # lines that go through a class object (state memoised on classes is shared by every thread rendering that class)
     "classattr": {"__class__", "component_cls", "comp_cls", "component_class"},
+    # per-render state parked on the compiled Template object (shared between threads through the template cache)
+    "tplflag": {"_djc_is_component_nested"},
 }
 GROUP_BIT = {g: 1 << i for i, g in enumerate(GROUPS)}
 NAME_BITS = {}
